@@ -96,7 +96,7 @@ class C23(core.Check):
     thorough_n = 6000
     rule = ("case = (durq|dusq, 1-2 queue keys held in one Hold over one Subery, <= 30 ops push/pull/pull(emptive=False)/extend|update/clear/remove/count/reopen "
             "over 5 values with duplicates (plus, rarely, the ==-equal values Bag(1)/Bag(1.0)/Bag(True)), and REJECTED calls: None / a str / an int as push, remove, count argument or at any position of an extend|update batch (the adapter records the HierError and continues); reopen = close the lmdb env, open it again, new Hold, "
-            "fresh OR PRELOADED queue objects - Durq(vals)/Dusq(vals) with the same / permuted / same-length / shorter / longer content than the durable copy - or the SAME objects re-injected ('keep'), via hold[k]= and hold.update, on a new or the same re-opened Subery; sync(force) on live queues; fresh equal value objects per call, Dusq arguments and results scribbled on; sibling sub-db sentinel). After every op list(queue) and the durable list at the key are observed for every queue. "
+            "fresh OR PRELOADED queue objects - Durq(vals)/Dusq(vals) with the same / permuted / same-length / shorter / longer content than the durable copy - or the SAME objects re-injected ('keep'), via every argument form of Hold(...) / Hold.update(...) / hold[k]= (dict, list of pairs, zip, generator, iterator, **kwa, mixed, tuple keys; form chosen by history length and reopen count), on a new or the same re-opened Subery; sync(force) on live queues; fresh equal value objects per call, Dusq arguments and results scribbled on; sibling sub-db sentinel). After every op list(queue) and the durable list at the key are observed for every queue. "
             "non-trivial = at least one reopen with a non-empty queue and >= 3 mutating ops; distinct by request line")
     trusted_base = ["lmdb modelled as a sorted association list (exercised by the correspondence on real lmdb, including close/reopen of the environment)",
                     "translator harness/extract/store.py (suffix constants)",
